@@ -209,7 +209,24 @@ fn c01_verify_hash_exact_padding_boundaries() {
 }
 
 fn keep_alive_tick(k: u32) {
+    keep_alive_tick_in(k, false)
+}
+
+fn keep_alive_tick_in(k: u32, downloading: bool) {
     let mut rig = mk_rig(1, None);
+    if downloading {
+        // a piece is assigned and two block requests are outstanding
+        let mut requested = VecDeque::with_capacity(4);
+        requested.push_back((0usize, 16384usize));
+        requested.push_back((16384usize, 16384usize));
+        rig.h.piece_rx = Some(PieceRx {
+            piece_index: 0,
+            hash: [0; HASH_SIZE],
+            buff: vec![],
+            requested,
+            left: VecDeque::with_capacity(4),
+        });
+    }
     rig.h.peer_state.keep_alive = k;
     let res = run_ready(rig.h.timeout_keep_alive()).expect("never blocks");
     if k == KEEP_ALIVE_LIMIT {
@@ -230,6 +247,7 @@ fn keep_alive_tick(k: u32) {
 // @fn PeerHandler::timeout_keep_alive, Connection::send_msg, KeepAlive::data
 // @bound silence counter = 0 (first tick after traffic); the counter only ever takes the values 0, 1, 2
 // @outside tokio's timer fidelity; Session::kill_peer (awaits the task handle)
+// @mem 11
 // @desc below the limit exactly one 4-byte keep-alive (00 00 00 00) is written and the counter grows by one
 #[kani::proof]
 #[kani::unwind(6)]
@@ -240,6 +258,7 @@ fn c20_keep_alive_tick_counter_0() {
 // @prop C20
 // @fn PeerHandler::timeout_keep_alive, Connection::send_msg, KeepAlive::data
 // @bound silence counter = 1
+// @mem 11
 // @desc second silent tick: one keep-alive written, counter 2
 #[kani::proof]
 #[kani::unwind(6)]
@@ -255,6 +274,27 @@ fn c20_keep_alive_tick_counter_1() {
 #[kani::unwind(6)]
 fn c20_keep_alive_tick_counter_2_closes() {
     keep_alive_tick(2);
+}
+
+// @prop C20
+// @fn PeerHandler::timeout_keep_alive, Connection::send_msg
+// @bound silence counter = 0 while a piece is assigned and two block requests are outstanding
+// @mem 11
+// @desc a keep-alive is emitted at every interval also while block requests are outstanding (position of the silence within the connection's life does not matter)
+#[kani::proof]
+#[kani::unwind(6)]
+fn c20_keep_alive_tick_while_downloading_sends() {
+    keep_alive_tick_in(0, true);
+}
+
+// @prop C20
+// @fn PeerHandler::timeout_keep_alive
+// @bound silence counter = 2 while a piece is assigned and two block requests are outstanding
+// @desc a peer that falls silent after we sent it block requests is closed at the third silent tick like any other
+#[kani::proof]
+#[kani::unwind(6)]
+fn c20_keep_alive_tick_while_downloading_closes() {
+    keep_alive_tick_in(2, true);
 }
 
 // ---------------------------------------------------------------------------------------------
